@@ -12,6 +12,7 @@ import Yv.Model.SplitA
 import Yv.Model.ListingDrv
 import Yv.Model.Subst
 import Yv.Model.Emit
+import Yv.Model.EmitRead
 import Yv.Model.DP
 import Yv.Model.GenTab
 import Yv.Model.Digraph
@@ -506,6 +507,13 @@ partial def loop (inp out : IO.FS.Stream) (a : CaseAcc) (x : XAcc := {}) : IO Un
   | "EEND" :: _ => do
     out.putStrLn s!"ECASE {a.id}"
     if a.refuse.isNone then
+      -- hypotheses of the read-back theorems (C11_emit_consts_readback_*, C06_emitted_codes_*, C01_emit_dense_readback_*)
+      let d := a.eData
+      let named := d.ids.filter fun i => i.isTerm && !Emit.isTemp i.name
+      let hn := named.all fun i => !i.name.toList.isEmpty && i.name.toList.all fun c => c != ' ' && c != '=' && c != '\n'
+      let hc := named.all fun i => i.name != "ERROR_ACTION" && i.name != "ACCEPT_ACTION"
+      let hcmt := d.syms.all fun sy => !Emit.hasCmtEnd sy.name.toList
+      out.putStrLn s!"M EV constNames {verdict hn} codeNames {verdict hc} noCommentEnd {verdict hcmt}"
       for variant in ["gop", "god", "ts"] do
         for (k, t) in Emit.parts a.eData variant do
           match t with
